@@ -37,11 +37,14 @@ def parse(out):
 
 
 def run_shards(chk, exe, base_args, shards, timeout, env=None, seed_arg="--seed", abort_key=None,
-               prefix_cmd=()):
+               prefix_cmd=(), hang_key=None):
     """Run `shards` copies of the harness with derived seeds; merge results into chk.
 
     Returns (stats, statd).  abort_key: if set, a child that dies on a signal is a
-    violation with that key (the property forbids aborting); otherwise a harness failure."""
+    violation with that key (the property forbids aborting); otherwise a harness failure.
+    hang_key: if set, a shard that exceeds the watchdog twice is a violation with that key.  Only for harnesses whose
+    work per case is bounded and whose watchdog is set far (>= 20x) above the measured run time, so that exceeding it
+    twice means the code under test stopped terminating (bounded-progress restatement of "always terminates")."""
     stats, statd = {}, {}
     jobs = []
     for i in range(shards):
@@ -67,7 +70,10 @@ def run_shards(chk, exe, base_args, shards, timeout, env=None, seed_arg="--seed"
             cmdline = " ".join(shlex.quote(c) for c in cmd)
             for key, case, text in viols:
                 chk.violation(key, text, {"cmd": cmdline + " --only " + case, "case": case, "shard_seed": s})
-            if r.timed_out:
+            if r.timed_out and hang_key:
+                chk.violation(hang_key, "no termination: watchdog (%ds, normal run time is a small fraction of it) fired twice for: %s" % (timeout, cmdline),
+                              {"cmd": cmdline})
+            elif r.timed_out:
                 chk.inconclusive_because("watchdog (%ds) fired twice for: %s" % (timeout, cmdline))
             elif r.rc not in (0, 1) or not done:
                 tail = (r.err or "")[-1500:]
